@@ -6,6 +6,8 @@ CONSTANTS
   RKeys = {"k1", "k2"}
   RPass = {"p1", "p2"}
   MaxHist = 4
+  MaxConns = 2
+  MaxCItems = 0
   MaxLines = 3
 INVARIANT RTypeOK Inv_Twin
 PROPERTIES P_C13
